@@ -59,6 +59,13 @@ class Ctx:
                                "musig_partial_sig_verify", "s2c_verify_commit", "ae_host_verify", "ecdsa_recover", "pedersen_verify_tally",
                                "xonly_tweak_add_check", "pubkey_parse", "xonly_parse", "sig_parse_der", "sig_parse_compact", "pubkey_combine", "pubkey_tweak_add", "pubkey_tweak_mul"))
     def _mirror(self, s, op, args, config, r):
+        # the header's own rule decides whether a function may be given the static context (same parser as the C20 check)
+        if not hasattr(self, "_restricted"):
+            try:
+                from props import c20
+                self._restricted = set(o for o, api in c20.OP_API.items() if api in c20.restricted_functions(self.repo)[0])
+            except Exception: self._restricted = set()
+        if op in self._restricted: return
         key = (config, s.nstarts)
         if getattr(self, "_static_key", None) != key:
             try: sc = s.call("ctx_static_copy")
